@@ -15,6 +15,9 @@ RULE = ("random IDL specifications (1-5 definitions, modules nested up to 2 deep
         "@mutable and other annotations, several declarators per member, arrays, enums with @value, unions with integer discriminators, "
         "several labels and default, typedefs, constants, bounded/unbounded strings, wstrings and sequences, all 20 base type spellings, "
         "scoped names relative and absolute) + a hand-written corpus with the exemplar of every known finding and a malformed-IDL stream; "
+        "plus (ORACLE ONLY, no Lean model of the preprocessor) a multi-file family: 2 corpus + 6 (quick) / 20 per round (thorough) specifications "
+        "compiled from three files -- a guarded header with a #define, a second guarded header that includes it, a main file that includes both "
+        "(in either order, or the first one twice) and uses the macro as array / sequence / string bound -- judged against their single-file AST; "
         "a case (one specification: outcome line + one line per declared type) is non-trivial when the compiler accepted it, the output "
         "compiled and at least one type description with a member was printed; distinct by op lines")
 ASSUMPTIONS = [
@@ -26,6 +29,7 @@ ASSUMPTIONS = [
     "rustc, pest and the description walker of the generated crate are trusted",
 ]
 N_QUICK, N_THOROUGH, ROUNDS_THOROUGH = 45, 120, 4
+N_MF_QUICK, N_MF_THOROUGH = 6, 20
 
 MALFORMED = [
     ("struct S { long a; }", "missing semicolon after definition"),
@@ -167,6 +171,12 @@ def run(ctx):
                 else:
                     specs.append(s)
         specs = {i: s for i, s in enumerate(specs)}
+        # multi-file family (preprocessor: include guards, #define shared across #include) -- oracle only, see gen_idl.MF_BASE
+        mg = I.MfGen(ctx.rng)
+        mfs = (list(I.mf_corpus()) if c == 0 else []) + [mg.spec() for _ in range(N_MF_QUICK if ctx.tier == "quick" else N_MF_THOROUGH)]
+        for j, s in enumerate(mfs):
+            specs[I.MF_BASE + j] = s
+            ctx.count("multi-file-spec")
         for s in specs.values():
             count_spec(ctx, s)
         pred = model_lines([f"idl {i} {I.spec_sx(s)}" for i, s in sorted(specs.items())])
@@ -181,6 +191,10 @@ def run(ctx):
                                               "compile (the model accepts what rustc rejects, or the generator is wrong)", "crate": d, "detail": errs})
             return
         cases = [Case(I.idl_case_lines(i, s)) for i, s in sorted(specs.items())]
+        for e in entries:
+            for w in e.get("mf_viol", []):
+                ctx.violations.append({"what": f"multi-file specification {e['i']}: {w}", "ops": I.idl_case_lines(e["i"], specs[e["i"]]),
+                                       "files": e["mf_files"]})
         ctx.differential("gen_idl", cases, nontrivial=nontrivial, oracle=oracle, model_engine="gen", shrink=False)
 
 
@@ -194,7 +208,10 @@ LEVEL_TEXT = ("Kernel-checked Lean theorems over ALL IDL specifications of the m
               "@bit_bound spelling and TRUE / FALSE constants (D-gen-24, D-gen-28: repairs exist, but change what two baseline tests assert), "
               "bounds dropped, multi-dimensional arrays, wide types, octet, union member names, union annotations rejected, typedef arrays panic, "
               "optional constructed members, nested sequences, scoped names, `>>`, panics on unsupported constructs, unknown types.")
-LEVEL_NOTE = ("Trusted: Lean kernel; Model/Idl.lean (transcription of generator/rust.rs, the accept/reject behaviour of the grammar for the "
+LEVEL_NOTE = ("ORACLE-ONLY PART: dds_gen/src/preprocessor (#include, include guards, #define substitution) has no Lean model; it is exercised by the "
+              "multi-file family, whose generated types are compared with the Lean prediction and the declared structure of the equivalent "
+              "single-file specification, and checked for 'every header type generated exactly once' and 'macro substituted'. "
+              "Trusted: Lean kernel; Model/Idl.lean (transcription of generator/rust.rs, the accept/reject behaviour of the grammar for the "
               "AST, rustc path resolution for the generated paths, the derive's first-attribute rule) and Model/Derive.lean; the IDL "
               "pretty printer; rustc; pest; Python oracle (IDL scoping and annotation rules). The pest grammar and the preprocessor are "
               "validated by correspondence and the malformed-input stream only.")
